@@ -102,3 +102,14 @@ func FuzzC02Target(f *testing.F) {
 		}
 	})
 }
+
+func FuzzC18Payload(f *testing.F) {
+	for _, s := range []string{`\x01\x02\x03`, "GET / HTTP/1.0\\r\\n\\r\\n", `\u0085`, `\U0001f600`, `\ufeffGET`, `\377`, `\400`, `\x`, `\`, `"`, `\"`, "a\nb", "\xff", "é", `\ud800`, `\U00110000`, `\x4`, `\18`, "\x00", `\'`} {
+		f.Add(s)
+	}
+	f.Fuzz(func(t *testing.T, s string) {
+		if v := c18CheckPayload(c18PayloadCase{Input: s, Origin: "fuzz"}); v.Err != nil {
+			t.Fatalf("property C18 violated: %v", v.Err)
+		}
+	})
+}
